@@ -155,6 +155,7 @@ type streamRun struct {
 	busy     bool
 	cid      int
 	windowed bool // a Put happened between this stream's snapshot / last scan read and its AddCallback
+	winRounds map[uint64]bool // the rounds of those Puts
 	base     uint64
 	started  bool
 }
@@ -250,8 +251,29 @@ func newWorld(backend, root string, genesis int64) (*world, error) {
 	return w, nil
 }
 
+// close unwinds the SyncChain calls that are still gated (a scan holds a bolt read transaction
+// open, and bolt's Close waits for it), then closes the store.
 func (w *world) close() {
-	_ = w.cbs.Close()
+	for _, r := range w.runs {
+		r.fs.mu.Lock()
+		r.fs.broken = true
+		r.fs.mu.Unlock()
+		go func(r *streamRun) {
+			for i := 0; i < 3; i++ {
+				select {
+				case r.fs.ack <- false:
+				case r.gs.gate <- struct{}{}:
+				case <-time.After(20 * time.Millisecond):
+				}
+			}
+		}(r)
+	}
+	closed := make(chan struct{})
+	go func() { _ = w.cbs.Close(); close(closed) }()
+	select {
+	case <-closed:
+	case <-time.After(Deadline):
+	}
 	if w.dir != "" {
 		_ = os.RemoveAll(w.dir)
 	}
@@ -304,9 +326,11 @@ func (w *world) do(e event) {
 			case "scan":
 				if w.backend != "mem" {
 					r.windowed = true
+					r.winRounds[w.head] = true
 				}
 			case "wait":
 				r.windowed = true
+				r.winRounds[w.head] = true
 			case "live":
 				if kk, ok := w.reg[r.cid]; ok && kk == k {
 					if r.busy {
@@ -322,7 +346,7 @@ func (w *world) do(e event) {
 		addr := tcpAddr{fmt.Sprintf("203.0.113.%d:7000", e.cid)}
 		fs.ctx = peer.NewContext(context.Background(), &peer.Peer{Addr: addr})
 		gs := &gatedStore{CallbackStore: w.cbs, atAdd: make(chan struct{}, 1), gate: make(chan struct{}), added: make(chan struct{}, 1)}
-		r := &streamRun{fs: fs, gs: gs, done: make(chan error, 1), phase: "scan", cid: e.cid, started: true}
+		r := &streamRun{fs: fs, gs: gs, done: make(chan error, 1), phase: "scan", cid: e.cid, started: true, winRounds: map[uint64]bool{}}
 		if e.from == 0 {
 			r.base = w.head + 1
 		} else {
@@ -662,6 +686,7 @@ type outcome struct {
 	backend string
 	obs     []obs
 	wins    []bool
+	winRnds []map[uint64]bool
 	bases   []uint64
 	toks    map[uint64]int64
 	problem string
@@ -680,6 +705,7 @@ func runOne(root string, sc scenario, backend string) (outcome, error) {
 	o := outcome{sc: sc, backend: backend, obs: w.finish(), toks: w.toks, problem: w.problem}
 	for _, r := range w.runs {
 		o.wins = append(o.wins, r.windowed)
+		o.winRnds = append(o.winRnds, r.winRounds)
 		o.bases = append(o.bases, r.base)
 	}
 	w.close()
@@ -735,20 +761,40 @@ func monitor(rep *emit.Report, o outcome) {
 			rounds[i] = s.round
 		}
 		in := map[string]interface{}{"scenario": o.sc.name, "backend": o.backend, "stream": k, "from": o.bases[k], "sent": rounds}
-		for i, s := range x.sent {
+		for _, s := range x.sent {
 			if tok, ok := o.toks[s.round]; !ok || tok != s.tok {
 				failOnce(rep, "C11-delivered-differs-from-stored", "a delivered beacon is not the stored beacon of that round", in)
 			}
-			want := o.bases[k] + uint64(i)
-			if s.round != want {
-				if o.wins[k] {
-					failOnce(rep, "C11-put-in-handover-window-skipped",
-						fmt.Sprintf("a beacon stored between the stream's snapshot / last scan read and its AddCallback was never sent: requested from %d, sent %v (back-end %s)", o.bases[k], rounds, o.backend), in)
-				} else {
-					failOnce(rep, "C11-stream-not-contiguous", fmt.Sprintf("sent sequence is not %d, %d, ...: %v", o.bases[k], o.bases[k]+1, rounds), in)
-				}
+		}
+		// contiguous from the start round?
+		contiguous := true
+		for i, s := range x.sent {
+			if s.round != o.bases[k]+uint64(i) {
+				contiguous = false
 				break
 			}
+		}
+		if contiguous {
+			continue
+		}
+		// explained exactly by the appends made in this stream's hand-over window?
+		explained := true
+		next := o.bases[k]
+		for _, s := range x.sent {
+			for o.winRnds[k][next] && next != s.round {
+				next++
+			}
+			if s.round != next {
+				explained = false
+				break
+			}
+			next++
+		}
+		if explained && o.wins[k] {
+			failOnce(rep, "C11-put-in-handover-window-skipped",
+				fmt.Sprintf("a beacon stored between the stream's snapshot / last scan read and its AddCallback was never sent: requested from %d, sent %v (back-end %s)", o.bases[k], rounds, o.backend), in)
+		} else {
+			failOnce(rep, "C11-stream-not-contiguous", fmt.Sprintf("sent sequence is not %d, %d, ... and is not explained by appends in the hand-over window: %v", o.bases[k], o.bases[k]+1, rounds), in)
 		}
 	}
 	if o.problem != "" {
